@@ -68,8 +68,9 @@ Definition do_place (cfg : sorted_cfg) (p : place) (x : hnd) (l : list hnd) : li
 
 (* [SetFormatterAgain] = setFormatter called with the formatter OBJECT of the most recent
    setFormatter call (re-applying a configuration); it behaves as [SetFormatter] if there was none *)
+(* [NullCall c] = the typed call of class c with a NULL pointer: every typed call ignores it *)
 Inductive op := AppendAttr | AppendFilter | SetFormatter | SetFormatterAgain | AppendSink | AppendPipeline
-              | Clear (c : cls) | ClearAll.
+              | NullCall (c : cls) | Clear (c : cls) | ClearAll.
 (* id = identity of the handler object: the index of the call that created it *)
 Definition step_cfg (cfg : sorted_cfg) (l : list hnd) (id : nat) (o : op) : list hnd :=
   match o with
@@ -79,6 +80,7 @@ Definition step_cfg (cfg : sorted_cfg) (l : list hnd) (id : nat) (o : op) : list
       do_place cfg (p_formatter cfg) (Fmt, id) (if fmt_clears_first cfg then clear Fmt l else l)
   | AppendSink => do_place cfg (p_sink cfg) (Snk, id) l
   | AppendPipeline => do_place cfg (p_pipeline cfg) (Pipe, id) l
+  | NullCall _ => l
   | Clear c => clear c l
   | ClearAll => []
   end.
@@ -107,6 +109,7 @@ Definition op_class (o : op) : option cls :=
 Definition step_ref (l : list hnd) (id : nat) (o : op) : list hnd :=
   match o with
   | SetFormatter | SetFormatterAgain => insert_sorted (Fmt, id) (clear Fmt l)
+  | NullCall _ => l
   | Clear c => clear c l
   | ClearAll => []
   | _ => match op_class o with Some c => insert_sorted (c, id) l | None => l end
@@ -115,6 +118,7 @@ Definition step_ref (l : list hnd) (id : nat) (o : op) : list hnd :=
 Definition log_step (c : cls) (lg : list hnd) (id : nat) (o : op) : list hnd :=
   match o with
   | ClearAll => []
+  | NullCall _ => lg
   | Clear c' => if cls_eqb c c' then [] else lg
   | SetFormatter | SetFormatterAgain => if cls_eqb c Fmt then [(Fmt, id)] else lg
   | _ => match op_class o with
